@@ -33,7 +33,7 @@ PROPS = {
         explanation="validate = matrix specification for all matrices/permutations and all iteration orders (Lean), tied by exhaustive small-scope + random correspondence through Matrix.validatePermutation and InterpolateMatrixPermutation.",
     ),
     "C12": dict(
-        level="proof", gen=True, corr_name="matrixInterpolator.Transform (driver mode c12)",
+        level="proof", gen=True, modules=["C12", "C04"], corr_name="matrixInterpolator.Transform (driver mode c12)",
         trusted_base=COMMON_TB + ["Go regexp (RE2) semantics for the single literal read from interpolate_matrix.go are modelled by a hand-written deterministic matcher; the literal itself is regenerated (Gen/MatrixRE) and checked by C12_regexp_literal",
                                  "step-level scoping (which fields are transformed) is proved in the interpolation model shared with C04 and tied by the taint run"],
         explanation="Single-pass token replacement theorems over the matcher model + scoping; correspondence on constructed token strings and near-miss look-alikes.",
@@ -56,11 +56,24 @@ PROPS = {
                                  "warnings from nested custom Unmarshalers are outside the generic model (none arise in the family)"],
         explanation="Partition/destination theorems for the key bookkeeping of decodeInto for every well-formed descriptor, instantiated to all regenerated pipeline structs; generic value decoder tied by correspondence over an 11-type family; yaml.v3 agreement and key partition as direct oracles.",
     ),
+    "C04": dict(
+        level="proof", gen=True, corr_name="Pipeline.Interpolate walkers (driver mode c04)",
+        trusted_base=COMMON_TB + ["buildkite/interpolate: the string expansion is a parameter of the theorems; the correspondence passes the real library's expansion of every string of the pipeline as a table",
+                                 "taint run in harness/cmd/extract/taint.go regenerates Gen/InterpVisits.lean (which positions each compiled interpolate method visits, how often, per transformer kind)",
+                                 "collision-freedom hypothesis keysFresh (renamed keys pairwise distinct and not equal to another original key of the same ordered mapping): a mapping cannot keep both entries; the model mirrors what the code does there and the correspondence compares it"],
+        explanation="interp = mapStrings for every step kind / nesting depth / transformer (Lean), error propagation, signature untouched, structure preserved; visit table regenerated by a taint run; correspondence with table-driven transformer; direct single-expansion oracle; repeated runs for map-order determinism.",
+    ),
 }
 
 NOT_APPLICABLE = {}
 
 MANIFEST_TEXT = {
+    "C04": dict(
+        text="Kernel-checked proofs (Lean 4) that a mirror of every interpolate method and walker equals 'apply the expansion once to every string' - keys and values, any depth, all step kinds, unknown fields, plugin configs, matrix, cache - for every transformer, with signatures untouched, step structure preserved, errors propagated exactly from a visited string, and the result a function of the input (Go-map walks use a sorted snapshot). The table of visited positions is re-measured on the compiled code by a taint run on every check and must equal the table the model implements. Tied by correspondence (real library expansions passed as a table) on generated pipelines with $-forms in every position, big Go maps, repeated runs, plus a direct single-expansion oracle on the implementation.",
+        design_ref="DESIGN.md §6 C04",
+        note="Trusted: Lean kernel; buildkite/interpolate as a black-box string function (its single application is its contract); taint extractor; the correspondence. Hypothesis keysFresh excludes renames that collide inside one ordered mapping.",
+        technique="Lean 4 proof (walker = functor map, mutual induction over nested values and steps) + taint-regenerated visit table + correspondence and single-expansion oracle",
+    ),
     "C16": dict(
         text="Kernel-checked proofs (Lean 4) about a mirror of decodeInto's field loop: for every descriptor with pairwise distinct keys and non-empty aliases and every input mapping, the keys consumed by fields plus the in-order inline remainder are exactly the input keys (none lost, none duplicated), each key goes to the field whose tag names it, else to the field listing it as first present alias when its own key is absent, else to the inline remainder; absent keys leave fields untouched, null zeroes; alias-free targets follow the YAML library's rule. The descriptor well-formedness is re-proved for every struct of package pipeline regenerated from source. The generic value decoder (scalars, slices, maps, ordered maps, nested/pointer structs, inline forms) is tied by correspondence over a family of 11 struct types, with yaml.v3's own decoder and the key partition as direct oracles.",
         design_ref="DESIGN.md §6 C16",
